@@ -5,3 +5,5 @@ cd /repo && sed -i "$e" "$f" && git diff --stat | tail -1
 cd /verif
 for p in "$@"; do ./check $p 2>&1 | grep -E "VIOLATION|^\[" | head -4; done
 git -C /repo checkout -- . 
+# refresh the evidence on the unchanged tree
+cd /verif; for p in "$@"; do ./check $p > /dev/null 2>&1; done
